@@ -139,7 +139,9 @@ def run(ctx):
             viol("static-callee-undeclared", f"{label}: the static call {tr}::{m}(x, 1) names {S}, not one declared function")
         if len(B) != 1 or (S and B != S):
             viol("bound-callee-differs", f"{label}: through the bound T: {tr} the instance calls {B}, the static form calls {S}")
-        if len(ctor) != 1 or ctor[0] not in declared or len(wrap_m) != 1 or wrap_m[0] not in declared:
+        if nominal == "nodyn":
+            pass  # the receiver already is a trait object of another trait: there is no dyn form
+        elif len(ctor) != 1 or ctor[0] not in declared or len(wrap_m) != 1 or wrap_m[0] not in declared:
             viol("dyn-vtable-broken", f"{label}: coercion to dyn {tr} uses constructor {ctor} / wrappers {wraps}, not declared exactly once")
         elif len(W) != 1 or W[0] not in declared:
             viol("dyn-callee-undeclared", f"{label}: the vtable wrapper {wrap_m[0]} calls {W}, which is not a declared function (static form calls {S})")
@@ -175,7 +177,8 @@ def run(ctx):
         tie(S == [mo("implgo")[0]], pid, "static site (Go)", f"Go f_static: {S}; model: {mo('implgo')}")
         tie(via_go == [mo("viago")[0]], pid, "instance name (Go)", f"Go f_bound: {via_go}; model: {mo('viago')}")
         dm = mo("dyn")
-        tie(W == [dm[0]] and ctor == [dm[1]] and wrap_m == [dm[2]], pid, "dyn site (Go)", f"Go wrapper callee {W}, ctor {ctor}, wrapper {wrap_m}; model: {dm}")
+        if nominal != "nodyn":
+            tie(W == [dm[0]] and ctor == [dm[1]] and wrap_m == [dm[2]], pid, "dyn site (Go)", f"Go wrapper callee {W}, ctor {ctor}, wrapper {wrap_m}; model: {dm}")
         tie(O == [mo("other")[0]] * len(O) and len(O) >= 1, pid, "distractor impl (Go)", f"Go f_other: {O}; model: {mo('other')}")
         if nominal == "nominal":
             tie(core.get("f_dot", []) == [mo("inh")[0]] and core.get("f_path", []) == [mo("inh")[0]], pid, "inherent sites (Core)",
@@ -184,6 +187,64 @@ def run(ctx):
         if len(samples) < 3 and label in ("struct", "tuple", "generic_enum_instance"):
             samples.append({"receiver": label, "trait": tr, "method": m, "callees": payload["callees"],
                             "model": {k: mo(k) for k in ("static", "bound", "dyn", "implgo")}})
+
+
+    # ---------------------------------------------------------------- same effect and result under Go.Sem
+    from props import c01
+    sem_progs, sem_feats = c01.collect(ctx, sub="c17sem")
+    sem_progs = c01.evaluate(ctx, sem_progs)
+    groups = collections.defaultdict(dict)
+    n_sem = n_sem_groups = n_sem_agree = n_sem_src = n_sem_src_ok = 0
+    sem_forms = collections.Counter()
+    for pid, d in sem_progs.items():
+        if not pid.startswith("sem/"):
+            continue
+        _, recv, pos, form = pid.split("/")
+        n_sem += 1
+        if "panic" in d:
+            ctx.report({"oracle": "crash", "stream": "effects"}, f"compiler panics on {pid}: {d['panic'][:120]}", {"id": pid, "src": d.get("src")})
+            continue
+        if "reject" in d:
+            ctx.report({"oracle": "reject", "stream": "effects", "receiver": recv},
+                       f"{pid}: a well-formed program is rejected: {d['reject'][1][:160]}", {"id": pid, "src": d.get("src"), "outcome": d["reject"]})
+            continue
+        o = d.get("out", {})
+        g = o.get("go")
+        if g is None or g[0] in ("decode-error", "parse-error"):
+            ctx.broken_ties.append(("Go.Sem driver", f"{pid}: {g}")); continue
+        sem_forms[form] += 1
+        groups[(recv, pos)][form] = (g[0], vlib.unesc(g[1]), d.get("src"), o.get("src"))
+    for (recv, pos), forms in sorted(groups.items()):
+        n_sem_groups += 1
+        outs = {f: (v[0], v[1]) for f, v in forms.items()}
+        # majority outcome = what the method does; a form that deviates is the failing input
+        cnt = collections.Counter(outs.values())
+        ref, _ = cnt.most_common(1)[0]
+        # the surface program under SrcSem, when it decides, is the arbiter
+        srcs = collections.Counter((v[3][0], vlib.unesc(v[3][1])) for v in forms.values()
+                                   if v[3] is not None and (v[3][0] == "ok" or v[3][0].startswith("panic")))
+        if srcs:
+            ref = srcs.most_common(1)[0][0]
+        bad = {f: o for f, o in outs.items() if o != ref}
+        stuck = {f: o for f, o in outs.items() if o[0].startswith("stuck") or o[0] == "fuel"}
+        if not bad:
+            n_sem_agree += 1
+        for f, o in sorted(bad.items()):
+            payload = {"id": f"sem/{recv}/{pos}/{f}", "receiver": recv, "position": pos, "form": f, "src": forms[f][2],
+                       "go_sem_of_this_form": {"status": o[0], "stdout": o[1][:400]},
+                       "go_sem_of_the_other_forms": {k: {"status": v[0], "stdout": v[1][:400]} for k, v in outs.items() if k != f},
+                       "expected": {"status": ref[0], "stdout": ref[1][:400]}}
+            kind = "not-executable" if f in stuck else ("effects-or-result-differ" if o[0] == ref[0] else "ends-differently")
+            rclass = "dyn-of-other-trait" if recv.startswith("dyn_") else "plain"
+            ctx.report({"oracle": "same-effect", "kind": kind, "form": f, "receiver_class": rclass},
+                       f"{recv}, call in {pos} position: the {f} form prints/returns {o[1][:80]!r} ({o[0]}), the other forms {ref[1][:80]!r} ({ref[0]})", payload)
+        for f, v in forms.items():
+            if v[3] is not None and (v[3][0] == "ok" or v[3][0].startswith("panic")):
+                n_sem_src += 1
+                n_sem_src_ok += (v[3][0], vlib.unesc(v[3][1])) == outs[f]
+        if len(samples) < 5 and pos in ("loop-tail", "result-value") and recv in ("struct_ref", "dyn_loud_same_signatures"):
+            samples.append({"effect_group": f"{recv}/{pos}", "forms": sorted(outs), "stdout": ref[1][:200], "status": ref[0],
+                            "src_of_one_form": next(iter(forms.values()))[2]})
 
     n_neg_ok = 0
     for r in negs:
@@ -216,13 +277,16 @@ def run(ctx):
     ctx.violations.sort(key=lambda v: len(v[2].get("src", "")))
 
     cov = {
-        "evaluations": len(progs) + len(negs) + len(extras),
-        "distinct_nontrivial": len(distinct) + n_neg_ok + n_extra_ok,
+        "evaluations": len(progs) + len(negs) + len(extras) + n_sem,
+        "distinct_nontrivial": len(distinct) + n_neg_ok + n_extra_ok + n_sem_groups,
+        "effect_programs": {"programs": n_sem, "by_form": dict(sem_forms), "groups(receiver x position)": n_sem_groups,
+                            "groups_where_all_forms_have_one_go_sem_outcome": n_sem_agree,
+                            "programs_decided_by_SrcSem": n_sem_src, "of_those_equal_to_go_sem": n_sem_src_ok, "generator": sem_feats},
         "equally_named_method_programs_ok": f"{n_extra_ok}/{len(extras)}",
         "rule": "one case = one generated program; positive programs (receiver type × trait name × method name) contain the static, "
                 "bounded-generic and dyn form of one trait method plus a distractor impl, and both inherent forms for local nominal "
                 "receivers; non-trivial = accepted by the real pipeline (positive) or rejected with the expected diagnostic (negative)",
-        "programs": len(progs) + len(negs) + len(extras),
+        "programs": len(progs) + len(negs) + len(extras) + n_sem,
         "program_outcomes": {f"{k[0]}:{k[1]}": v for k, v in sorted(outcomes.items())},
         "positive_programs_all_forms_agree": n_agree, "positive_programs_compiled": n_ok,
         "negative_programs_rejected_as_required": n_neg_ok, "negative_programs": len(negs),
